@@ -3,4 +3,4 @@
 From Coq Require Import Extraction ExtrOcamlBasic.
 From SF Require Import Base.Prelude Account.AccountInfo Account.Validate.
 Extraction Language OCaml.
-Extraction "model_acct.ml" Z.add Z.mul Z.opp run_c07 run_c08 run_c09 run_c09v.
+Extraction "model_acct.ml" Z.add Z.mul Z.opp run_c07 run_c08 run_c09 run_c09v run_c09s.
